@@ -5,6 +5,7 @@ import (
 	"go/token"
 	"go/types"
 	"math"
+	"strings"
 	"unicode/utf8"
 
 	"golang.org/x/tools/go/ssa"
@@ -729,7 +730,7 @@ func (m *Machine) slice(instr *ssa.Slice, x, lo, hi, max value) value {
 				in = m.F.Cmp(term.OpUle, tv, m.F.Const(tv.W, uint64(capacity)))
 			}
 			if !m.branch(boolVal(in)) {
-				m.rtPanic("slice bounds out of range [symbolic " + what + "]")
+				m.rtPanic(fmt.Sprintf("slice bounds out of range [symbolic %s] with capacity %d", what, capacity))
 			}
 		}
 		return int(m.concreteInt(v, t, "slice "+what))
@@ -1016,6 +1017,7 @@ func (m *Machine) doRecover(fr *frame) value {
 	co := m.cur
 	if fr != nil && fr.owner != nil && fr.owner.unwinding && co.panicking != nil && !co.panicking.recovered {
 		co.panicking.recovered = true
+		m.lastRecovered = m.panicString(co.panicking.val) + " @ " + topFunc(co.panicking.where)
 		return co.panicking.val
 	}
 	return iface{}
@@ -1099,3 +1101,14 @@ func (m *Machine) rangeIter(x value, t types.Type) iter {
 }
 
 var _ = math.Abs
+
+func topFunc(where string) string {
+	top := where
+	if i := strings.Index(top, " <- "); i >= 0 {
+		top = top[:i]
+	}
+	if i := strings.Index(top, "@"); i >= 0 {
+		top = top[:i]
+	}
+	return top
+}
